@@ -83,7 +83,8 @@ def concrete_field_kinds(ctx):
         if new is not None:
             clsparam = (func_params(new) or ["cls"])[0]
             # the class to instantiate is re-bound (in any form of assignment): the base class itself is never the kind of a value
-            dispatches = any(isinstance(n, ast.Name) and n.id == clsparam and isinstance(n.ctx, ast.Store) for n in ast.walk(new))
+            dispatches = any(isinstance(n, ast.Name) and n.id == clsparam and isinstance(n.ctx, ast.Store) for n in ast.walk(new)) or any(
+                isinstance(n, ast.Call) and isinstance(n.func, ast.Attribute) and n.func.attr == "__new__" and n.args and norm(n.args[0]) != clsparam for n in ast.walk(new))
         if dispatches and subs:
             for s in subs:
                 kinds.setdefault(qualname_of(s), DefRef(qualname_of(s), s))
